@@ -39,7 +39,8 @@ class Scenario:
 
 class Contract:
     def __init__(self, func, serves, scenarios, raises=(), returns=None, updates=None, ensures=(), exc_ensures=(),
-                 loops=None, policy=None, requires=(), note="", native=None, ghost_params=(), fresh_result=None, decreases=None):
+                 loops=None, policy=None, requires=(), note="", native=None, ghost_params=(), fresh_result=None, decreases=None, key=None):
+        self.key = key or func
         self.decreases = decreases
         self.fresh_result = fresh_result  # 'str'|'int'|'real': non-functional contract, callers get a fresh value + ensures
         self.func = func
@@ -80,7 +81,7 @@ def verify_lemma(world, lem, budget_ms=2000):
 
 
 def register(world: World, ct: Contract):
-    world.contracts[ct.func] = ct
+    world.contracts[ct.key] = ct
     if ct.loops:
         if not hasattr(world, "loop_specs"):
             world.loop_specs = {}
@@ -417,12 +418,20 @@ def verify_scenario(world: World, ct: Contract, sc: Scenario, budget_ms=400, max
             ex.verifying = ct.func
             if ct.decreases is not None:
                 ex.measure_entry = eval_clause(ex, ct.decreases, cenv, fv.mi)
+            raised = None
             try:
                 result = ex.run_body(fv, dict(env))
+            except PyRaise as pr:
+                raised = pr
+            renv = dict(cenv)  # raise conditions speak about the entry state
+            for k, v in list(env.items()):
+                if isinstance(v, Obj):
+                    renv[k] = cenv["old_" + k]
+            if raised is None:
                 r.outcome = "return"
                 cenv["result"] = result
                 for exc, cond in ct.raises:
-                    path.check(f"{ct.func}/no-raise[{exc}]", z3.Not(clause_truth(ex, cond, cenv, fv.mi)),
+                    path.check(f"{ct.func}/no-raise[{exc}]", z3.Not(clause_truth(ex, cond, renv, fv.mi)),
                                {"kind": "raises-complete", "text": f"normal return implies not ({cond})", "exc": exc})
                 if ct.returns is not None:
                     want = eval_clause(ex, ct.returns, cenv, fv.mi)
@@ -436,7 +445,8 @@ def verify_scenario(world: World, ct: Contract, sc: Scenario, budget_ms=400, max
                 for cid, expr, props in ct.ensures:
                     path.check(f"{ct.func}/ensures[{cid}]", clause_truth(ex, expr, cenv, fv.mi),
                                {"kind": "ensures", "text": expr, "props": props})
-            except PyRaise as pr:
+            else:
+                pr = raised
                 r.outcome = f"raise:{pr.exc.cls}"
                 cenv["raised"] = pr.exc.cls
                 conds = [c for e, c in ct.raises if ex.exc_is_subclass(pr.exc.cls, e) or e == pr.exc.cls]
@@ -444,7 +454,7 @@ def verify_scenario(world: World, ct: Contract, sc: Scenario, budget_ms=400, max
                     path.check(f"{ct.func}/unexpected-exception[{pr.exc.cls}]", z3.BoolVal(False),
                                {"kind": "raises", "text": f"{pr.exc.cls} is not an allowed outcome"})
                 else:
-                    goal = z3.Or(*[clause_truth(ex, c, cenv, fv.mi) for c in conds])
+                    goal = z3.Or(*[clause_truth(ex, c, renv, fv.mi) for c in conds])
                     path.check(f"{ct.func}/raises[{pr.exc.cls}]", goal,
                                {"kind": "raises", "text": f"raise {pr.exc.cls} implies ({' or '.join(conds)})"})
                 for cid, expr, props in ct.exc_ensures:
